@@ -1,7 +1,7 @@
 (* C13 — property theorems only. Each is closed by [exact] of a lemma proved in C13/Proofs*.v. *)
 From Coq Require Import List Arith Bool.
 Import ListNotations.
-From AgileV Require Import C13.Model C13.Proofs C13.ProofsInv C13.ProofsSurface C13.ProofsGenuine.
+From AgileV Require Import C13.Model C13.Proofs C13.ProofsInv C13.ProofsSurface C13.ProofsGenuine C13.ProofsTimed.
 
 (* Misuse — waiting without a pending call, a second call (or set_attr) while one is pending, any call after
    close() — returns the documented error and leaves the whole state (parent and workers) unchanged,
@@ -124,6 +124,33 @@ Theorem timeout_only_resets_state : forall fin e,
   snd (wait_core fin e) = mkE DEFAULT (closed e) (ws e) (eq e) (got e) /\ fin = true /\ poll_all (ws e) = false.
 Proof. exact timeout_only_resets_state_lemma. Qed.
 Print Assumptions timeout_only_resets_state.
+
+(* The poll loop of a wait shares ONE deadline among the pipes. poll_loop makes time explicit: ds = time at which each
+   pipe's answer becomes readable (any number of workers, any times, pipe order). With the shared budget the loop
+   succeeds iff EVERY answer arrives by T (the maximum counts, not a per-pipe allowance) and otherwise gives up exactly
+   at time T ... *)
+Theorem poll_deadline : forall T ds,
+  (fst (poll_loop false T 0 ds) = true <-> Forall (fun d => d <= T) ds) /\
+  (Exists (fun d => T < d) ds -> poll_loop false T 0 ds = (false, T)).
+Proof. exact poll_deadline_lemma. Qed.
+Print Assumptions poll_deadline.
+
+(* ... so X_wait(T) with staggered answers reports Timeout (at time T, nothing consumed, state DEFAULT) as soon as one
+   worker answers after T, however the others are staggered, and never reports Timeout when all answer by T. *)
+Theorem timeout_reported_staggered : forall k T ds e,
+  closed e = false -> st e = wst k ->
+  (Exists (fun d => T < d) ds ->
+     wait_timed false k T ds e = (Timeout, mkE DEFAULT (closed e) (ws e) (eq e) (got e)) /\
+     snd (poll_loop false T 0 ds) = T) /\
+  (Forall (fun d => d <= T) ds -> fst (wait_timed false k T ds e) <> Timeout).
+Proof. exact timeout_reported_staggered_lemma. Qed.
+Print Assumptions timeout_reported_staggered.
+
+(* the variant that polls every pipe with the full timeout misses the timeout for staggered readiness *)
+Theorem per_pipe_budget_refuted : exists T ds,
+  Exists (fun d => T < d) ds /\ poll_loop true T 0 ds = (true, 230) /\ poll_loop false T 0 ds = (false, T).
+Proof. exact per_pipe_budget_refuted_lemma. Qed.
+Print Assumptions per_pipe_budget_refuted.
 
 (* close() is total (current tree, with 3d4be93 and 8e80bc4): from every state reachable from a fresh environment
    by ANY sequence of interface calls (legal or misuse), harness kills and wake-ups, under ANY fault plans of any
